@@ -397,6 +397,10 @@ impl RefTrace {
         let from = after.map(|a| a + 1).unwrap_or(0);
         (from..self.pos.len()).find(|&j| set.contains(&self.pos[j].rip))
     }
+    /// entry address of the function an activation runs (identity of the function)
+    pub fn fn_of_act(&self, a: u32) -> u64 {
+        self.acts[a as usize].entry_rip
+    }
     pub fn foreign_after(&self, i: usize) -> bool {
         self.pos[i].fa
     }
